@@ -113,7 +113,7 @@ SPEC = [
          params=[("drift_rate", "Q"), ("tchans", "Z"), ("dt", "Q"), ("df", "Q")], ret="Z"),
     dict(group="17", name="dedrift_offset", file="setigen/dedrift.py", cls=None, func="dedrift", what="nth:offset:1",      # inside the loop over rows i
          params=[("drift_rate", "Q"), ("i", "Z"), ("dt", "Q"), ("df", "Q")], ret="Z"),
-    dict(group="17", name="normalise_elt", file="setigen/integrate.py", cls=None, func="integrate", what="nth:data:4",      # inside `if normalize`; elementwise on the integrated vector
+    dict(group="17", name="normalise_elt", file="setigen/integrate.py", cls=None, func="integrate", what="under:normalize:data",      # inside `if normalize`; elementwise on the integrated vector
          params=[("data", "Q"), ("m", "Q"), ("s", "Q")], ret="Q", opaque={"np.mean(c_data)": "m", "np.std(c_data)": "s"}),
     dict(group="19", name="num_splits", file="setigen/split_utils.py", cls=None, func="split_waterfall_generator", what="nth:num_splits:2",   # else branch: fchans <= nchans
          params=[("nchans", "Z"), ("fchans", "Z"), ("f_shift", "Z")], ret="Z"),
@@ -201,6 +201,14 @@ def pick(fn, what):
         if len(hits) < int(k):
             raise Untranslatable("only %d assignments to %s" % (len(hits), target))
         return hits[int(k) - 1].value
+    if kind == "under":
+        # the (single) assignment to the target directly inside the body of `if <test>:` -- robust against statements added or merged elsewhere
+        test, target = target.split(":", 1)
+        hits = [b for m in ast.walk(fn) if isinstance(m, ast.If) and src(m.test) == test for b in m.body
+                if isinstance(b, ast.Assign) and any(src(t) == target for t in b.targets)]
+        if len(hits) != 1:
+            raise Untranslatable("%d assignments to %s under `if %s`" % (len(hits), target, test))
+        return hits[0].value
     if kind == "flow":
         # the value of one variable after the leading statements of the function: plain assignments `v = e` and guarded
         # reassignments `if test: v = e` (no else) are folded into nested conditionals; statements that do not mention the
